@@ -451,14 +451,15 @@ pub fn detect_endianness_from_magic(magic: u32) -> Option<Endianness> {
 
 /// Write endianness magic number to identify format
 pub fn write_endianness_magic(endianness: Endianness) -> u32 {
+    // (a match guard applies to the whole or-pattern: `Big | Native if native() == Big`
+    // never matched Big on a little-endian host and fell through to the default)
     match endianness {
-        Endianness::Little | Endianness::Native if Endianness::native() == Endianness::Little => {
-            ENDIAN_MAGIC_LITTLE
-        }
-        Endianness::Big | Endianness::Native if Endianness::native() == Endianness::Big => {
-            ENDIAN_MAGIC_BIG
-        }
-        _ => ENDIAN_MAGIC_LITTLE, // Default to little endian
+        Endianness::Little => ENDIAN_MAGIC_LITTLE,
+        Endianness::Big => ENDIAN_MAGIC_BIG,
+        Endianness::Native => match Endianness::native() {
+            Endianness::Big => ENDIAN_MAGIC_BIG,
+            _ => ENDIAN_MAGIC_LITTLE,
+        },
     }
 }
 
